@@ -71,6 +71,7 @@ type Case struct {
 	HavingAfterWith bool       `json:"having_after_with,omitempty"` // tumbling: "... WITH (...) HAVING ..." as in the repo's own e2e test
 	Order           []OrderKey `json:"order,omitempty"`
 	Limit           int        `json:"limit,omitempty"`
+	AliasStyle      int        `json:"alias_style,omitempty"` // 0: a0, a1, ..; otherwise names that contain keywords (lowercase_0, order_1, is_2, band3, end_4, ...)
 	Rows            []gen.Row  `json:"rows"` // id, g, win (tumbling), x, y, z, w
 }
 
@@ -550,10 +551,31 @@ func genItem(t *rapid.T) Item {
 	return Item{E: *e, Form: form}
 }
 
-func alias(i int) string { return fmt.Sprintf("a%d", i) }
+// aliasPrefixes: output names that contain SQL keywords (case, or, is, and, end, not, in, as, by, like) as parts of words
+var aliasPrefixes = []string{"lowercase_", "order_", "is_", "band", "end_", "notes", "showcase", "asby", "likes_"}
+
+func (c Case) alias(i int) string {
+	if c.AliasStyle == 0 {
+		return fmt.Sprintf("a%d", i)
+	}
+	return fmt.Sprintf("%s%d", aliasPrefixes[(c.AliasStyle+i)%len(aliasPrefixes)], i)
+}
+
+// aliasIndex is the inverse of alias: the item index is the trailing number.
+func aliasIndex(name string) int {
+	j := len(name)
+	for j > 0 && name[j-1] >= '0' && name[j-1] <= '9' {
+		j--
+	}
+	i, _ := strconv.Atoi(name[j:])
+	return i
+}
 
 func genCase(t *rapid.T) Case {
 	c := Case{Source: "tumbling", Windows: 1, SelectG: true}
+	if rapid.Bool().Draw(t, "keywordAliases") {
+		c.AliasStyle = rapid.IntRange(1, len(aliasPrefixes)).Draw(t, "aliasStyle")
+	}
 	if rapid.IntRange(0, 9).Draw(t, "source") >= 8 { // rapid favours small draws: most cases are multi-group
 		c.Source = "counting"
 	}
@@ -636,7 +658,7 @@ func genCase(t *rapid.T) Case {
 	if rapid.IntRange(0, 9).Draw(t, "order") < 5 {
 		var cols []string
 		for _, i := range usable {
-			cols = append(cols, alias(i))
+			cols = append(cols, c.alias(i))
 		}
 		if c.Source == "tumbling" && c.SelectG {
 			cols = append(cols, "g")
@@ -705,7 +727,7 @@ func genHaving(t *rapid.T, c Case, usable []int, batches []refBatch) *Having {
 		switch {
 		case kind < 3 && len(usable) > 0: // alias
 			idx := usable[rapid.IntRange(0, len(usable)-1).Draw(t, "aidx")]
-			a.Alias = alias(idx)
+			a.Alias = c.alias(idx)
 			e := c.Items[idx].E
 			operand = &e
 		case kind < 5: // a selected plain aggregate, written as a call
@@ -818,7 +840,7 @@ func sqlOf(c Case) string {
 		sel = append(sel, "collect(id) AS ids")
 	}
 	for i, it := range c.Items {
-		sel = append(sel, it.E.sql(c.Upper)+" AS "+alias(i))
+		sel = append(sel, it.E.sql(c.Upper)+" AS "+c.alias(i))
 	}
 	q := "SELECT "
 	if c.Distinct {
@@ -894,8 +916,7 @@ func triOr(a, b tri) tri {
 
 func (a Atom) operand(c Case) *Expr {
 	if a.Alias != "" {
-		var i int
-		fmt.Sscanf(a.Alias, "a%d", &i)
+		i := aliasIndex(a.Alias)
 		e := c.Items[i].E
 		return &e
 	}
@@ -994,8 +1015,7 @@ func cmpRows(c Case, a, b *expRow) int {
 		if k.Col == "g" {
 			r = strings.Compare(a.g, b.g)
 		} else {
-			var i int
-			fmt.Sscanf(k.Col, "a%d", &i)
+			i := aliasIndex(k.Col)
 			va, vb := a.vals[i], b.vals[i]
 			if va.null || vb.null { // never generated; placement of NULL is unspecified
 				return 0
@@ -1032,7 +1052,7 @@ func rowText(c Case, r *expRow) string {
 		fmt.Fprintf(&sb, "g=%s ", r.g)
 	}
 	for i, v := range r.vals {
-		fmt.Fprintf(&sb, "%s=%s ", alias(i), v)
+		fmt.Fprintf(&sb, "%s=%s ", c.alias(i), v)
 	}
 	return strings.TrimSpace(sb.String())
 }
@@ -1286,7 +1306,7 @@ func runCase(c Case) (res pbt.Result) {
 		selected["ids"] = true
 	}
 	for i := range c.Items {
-		selected[alias(i)] = true
+		selected[c.alias(i)] = true
 	}
 	for _, d := range in.Deliveries() {
 		key := batchKey(d)
@@ -1316,9 +1336,9 @@ func runCase(c Case) (res pbt.Result) {
 				}
 			}
 			for i, it := range c.Items {
-				if _, ok := row[alias(i)]; !ok {
+				if _, ok := row[c.alias(i)]; !ok {
 					e := it.E
-					res.Add(pbt.D("missing-column:"+e.shape(), "item %s AS %s is missing from the delivered row %v; query %s", e.sql(c.Upper), alias(i), row, q))
+					res.Add(pbt.D("missing-column:"+e.shape(), "item %s AS %s is missing from the delivered row %v; query %s", e.sql(c.Upper), c.alias(i), row, q))
 				}
 			}
 			// identify the reference row
@@ -1343,7 +1363,7 @@ func runCase(c Case) (res pbt.Result) {
 				}
 				// with DISTINCT the survivor of a set of duplicates may be any of them: g is selected, so there are none
 				for i, it := range c.Items {
-					gv, present := row[alias(i)]
+					gv, present := row[c.alias(i)]
 					if !present {
 						continue
 					}
@@ -1351,7 +1371,7 @@ func runCase(c Case) (res pbt.Result) {
 					e := it.E
 					if !isNum || !sameVal(v, m.vals[i]) {
 						res.Add(pbt.D("wrong-item:"+e.shape(), "%s AS %s = %v, relational value %s (group %q, %d rows: %s); query %s",
-							e.sql(c.Upper), alias(i), gv, m.vals[i], m.g, m.nrows, groupText(eb.refBatch.rows[m.g]), q))
+							e.sql(c.Upper), c.alias(i), gv, m.vals[i], m.g, m.nrows, groupText(eb.refBatch.rows[m.g]), q))
 					}
 				}
 			} else {
@@ -1363,7 +1383,7 @@ func runCase(c Case) (res pbt.Result) {
 						}
 						okAll := true
 						for i := range c.Items {
-							gv, present := row[alias(i)]
+							gv, present := row[c.alias(i)]
 							v, isNum := gotVal(gv)
 							if !present || !isNum || !sameVal(v, r.vals[i]) {
 								okAll = false
@@ -1568,7 +1588,7 @@ func features(c Case) []string {
 
 var spec = pbt.Spec[Case]{
 	ID:   "C07",
-	Rule: "generated programs over two batch sources: an event-time tumbling window (1-2 consecutive windows, 1-5 groups interleaved, then a flush row) giving multi-group batches, and CountingWindow(N) without grouping giving 1-4 single-group batches. SELECT items (aliased): agg(x), agg(x) op lit, agg(x) op lit op lit, lit op agg(x), agg(x) op agg(y), (agg op lit) op X, X op (agg op Y), (agg op X), (agg(x)), ((agg op lit) op lit) op agg, agg(x*2), agg(x*2) op lit, agg(x+y)/agg(z), agg(x*2) op agg(y*3) [op agg(..)] over 7 arithmetic arguments; agg in sum/avg/min/max/count, divisors never zero; upper/lower-case function names. HAVING: 1-3 comparisons (> >= < <= and = on exact operands) of an alias, a selected aggregate, an unselected aggregate, arithmetic over two aggregates or an aggregate over an arithmetic argument with a threshold drawn next to the groups' values, joined by AND/OR with optional parentheses, written before or after WITH. ORDER BY 1-2 output columns (aliases, g) ASC/DESC; LIMIT 1..groups+1; DISTINCT incl. count(*)-only projections. values: small ints and quarter-step floats, x NULL/missing in some rows, w often NULL (w-items never used in HAVING/ORDER BY). oracle: relational reference (reference aggregates, float64 arithmetic, NULL-propagating), HAVING -> projection -> DISTINCT -> ORDER BY -> LIMIT per batch: key set, item values (rel. tol 1e-9), exact HAVING membership, ORDER BY validity of adjacent rows, LIMIT size and prefix-of-a-valid-order, no duplicates under DISTINCT, one delivery per batch with a survivor and none otherwise. non-trivial = (a compound item or a HAVING operand that is not a selected column) and a batch with >= 2 groups; distinct by case hash",
+	Rule: "generated programs over two batch sources: an event-time tumbling window (1-2 consecutive windows, 1-5 groups interleaved, then a flush row) giving multi-group batches, and CountingWindow(N) without grouping giving 1-4 single-group batches. SELECT items (aliased a0, a1, .. or, half of the time, with names that contain keywords as parts of words: lowercase_0, order_1, is_2, band3, end_4, ..): agg(x), agg(x) op lit, agg(x) op lit op lit, lit op agg(x), agg(x) op agg(y), (agg op lit) op X, X op (agg op Y), (agg op X), (agg(x)), ((agg op lit) op lit) op agg, agg(x*2), agg(x*2) op lit, agg(x+y)/agg(z), agg(x*2) op agg(y*3) [op agg(..)] over 7 arithmetic arguments; agg in sum/avg/min/max/count, divisors never zero; upper/lower-case function names. HAVING: 1-3 comparisons (> >= < <= and = on exact operands) of an alias, a selected aggregate, an unselected aggregate, arithmetic over two aggregates or an aggregate over an arithmetic argument with a threshold drawn next to the groups' values, joined by AND/OR with optional parentheses, written before or after WITH. ORDER BY 1-2 output columns (aliases, g) ASC/DESC; LIMIT 1..groups+1; DISTINCT incl. count(*)-only projections. values: small ints and quarter-step floats, x NULL/missing in some rows, w often NULL (w-items never used in HAVING/ORDER BY). oracle: relational reference (reference aggregates, float64 arithmetic, NULL-propagating), HAVING -> projection -> DISTINCT -> ORDER BY -> LIMIT per batch: key set, item values (rel. tol 1e-9), exact HAVING membership, ORDER BY validity of adjacent rows, LIMIT size and prefix-of-a-valid-order, no duplicates under DISTINCT, one delivery per batch with a survivor and none otherwise. non-trivial = (a compound item or a HAVING operand that is not a selected column) and a batch with >= 2 groups; distinct by case hash",
 	Assumptions: []string{
 		"ties and NULL placement under ORDER BY are unspecified (NULL sort keys are not generated); two sort keys within 1e-9 of each other whose value is inexact (avg, division, non-dyadic literal) count as a tie in either direction, whatever the later keys say",
 		"a HAVING comparison whose inexact operand (avg, division, non-dyadic literal) is within 1e-9 of the threshold may go either way",
